@@ -166,11 +166,13 @@ impl<Body> AmendedRequest<Body> {
     }
 
     pub fn new_uri_from_location(&self, location: &str) -> Result<Uri, Error> {
-        let base = Url::parse(&self.uri().to_string()).expect("base uri to be a url");
-
-        let url = base
-            .join(location)
-            .map_err(|_| Error::BadLocationHeader(location.to_string()))?;
+        let url = match Url::parse(&self.uri().to_string()) {
+            Ok(base) => base.join(location),
+            // The request uri is not absolute (origin-form with a host header):
+            // only an absolute location can be resolved without a base.
+            Err(_) => Url::parse(location),
+        }
+        .map_err(|_| Error::BadLocationHeader(location.to_string()))?;
 
         let uri = url
             .to_string()
